@@ -759,7 +759,9 @@ func (r *rewriter) fixImports() {
 	}
 	if r.usedSubst {
 		for n, p := range r.cfg.SubstImports {
-			add[n] = p
+			if used[n] { // only where a substitution actually introduced the name
+				add[n] = p
+			}
 		}
 	}
 	if len(add) == 0 {
@@ -775,8 +777,8 @@ func (r *rewriter) fixImports() {
 		dup := false
 		for _, is := range r.file.Imports {
 			p, _ := strconv.Unquote(is.Path.Value)
-			if p == add[n] {
-				dup = true
+			if p == add[n] && (is.Name == nil || is.Name.Name == n) {
+				dup = true // (the same path under another local name, e.g. via import_subst, does not count)
 			}
 		}
 		if dup {
